@@ -118,13 +118,17 @@ class Symbol(ExpressionToken):
             if name in compiler.symbols:
                 return compiler.symbols[name]
 
+        # A symbol exported by another file is only looked up when the whole
+        # program has been seen: this file may still define the name itself
+        # further down, and its own definition takes precedence.
+        not_ready()
+
         extern_mapping = compiler.extern_symbols_mapping.get(self.name)
         if extern_mapping:
             extern = compiler.symbols.get(extern_mapping[1])
             if extern:
                 return extern
 
-        not_ready()
         # TODO: check if there's a local symbol with the same name defined out of scope
         reports.error(
             "undefined-symbol",
